@@ -191,14 +191,27 @@ def mutate(r, kind, doc, force=None, prefer=None, at=None):
 
         spots = {}
 
-        def walk3(x, path):
-            items = x.items() if isinstance(x, dict) else enumerate(x) if isinstance(x, list) else ()
-            for k2, v2 in items:
-                p2 = f"{path}.{k2}" if isinstance(x, dict) else f"{path}[{k2}]"
-                spots.setdefault(generic_path(p2), []).append((x, k2))
-                walk3(v2, p2)
+        def label(x):
+            # the model an object belongs to, as far as the document shows it: its discriminator tag(s)
+            if isinstance(x, dict):
+                tags = [f"{k}={x[k]}" for k in ("op", "t", "tya", "tp", "v", "s", "b", "c") if isinstance(x.get(k), str)]
+                return ",".join(tags[:2])
+            return ""
 
-        walk3(d, "")
+        def walk3(x, path, lab):
+            # position classes follow the MODELS (nearest tagged object + key), not the paths: the `arg` of a string
+            # argument is one class wherever string arguments occur
+            if isinstance(x, dict):
+                here = label(x) or lab
+                for k2, v2 in x.items():
+                    spots.setdefault(f"{here or path.split('[')[0]}/{k2}", []).append((x, k2))
+                    walk3(v2, f"{path}.{k2}", here)
+            elif isinstance(x, list):
+                for k2, v2 in enumerate(x):
+                    spots.setdefault(f"{lab}/{generic_path(path).rsplit('.', 1)[-1]}[*]", []).append((x, k2))
+                    walk3(v2, f"{path}[{k2}]", lab)
+
+        walk3(d, "", "")
         if not spots:
             return None
         if at is not None:
@@ -221,7 +234,7 @@ def mutate(r, kind, doc, force=None, prefer=None, at=None):
         # every kind of replacement.  Scalar for scalar: no floats (1.0 is an integer for JSON Schema), no bool for a
         # number and no number for a bool -- kept to what both formalisms treat as different types.
         if scalar:
-            swap = ["x"] if isinstance(old, (bool, int, float)) else [7] if isinstance(old, str) else [7, "x"]
+            swap = ["x"] if isinstance(old, (bool, int, float)) else [7, 7.5] if isinstance(old, str) else [7, "x"]
             options = [("retype-swap", v) for v in swap] + [("retype-class", v) for v in
                                                              ([[1], {"zz": 1}, [], {}] + ([] if old is None else [None]))]
         elif isinstance(old, list):
@@ -414,6 +427,25 @@ def corpus_doc(r, want=None):
     return k, json.loads(Package(mods, exts)._to_serial().model_dump_json())
 
 
+def zoo_type():
+    """a type expression that holds one of every kind of type argument, parameter-free type and nested type: every
+    model of the type language appears in the corpus whatever the random documents happen to contain"""
+    from hugr import tys
+    from vf.props import c05
+
+    C, A = tys.TypeBound.Copyable, tys.TypeBound.Any
+    inner = tys.Opaque("Inner", C, [tys.StringArg("txt"), tys.BoundedNatArg(3)], "zoo.ext")
+    args = [tys.StringArg("s"), tys.BoundedNatArg(7), tys.TypeTypeArg(inner),
+            tys.SequenceArg([tys.StringArg("in-seq"), tys.BoundedNatArg(1), tys.TypeTypeArg(tys.Qubit)]),
+            tys.ExtensionsArg(["a.ext", "b.ext"]), tys.VariableArg(0, tys.StringParam()),
+            tys.VariableArg(1, tys.BoundedNatParam(5)), tys.VariableArg(2, tys.ListParam(tys.TypeTypeParam(A))),
+            tys.VariableArg(3, tys.TupleParam([tys.StringParam(), tys.ExtensionsParam()])),
+            tys.TypeTypeArg(tys.FunctionType([tys.Variable(0, C), tys.RowVariable(1, A)], [tys.USize(), tys.Alias("al", C)],
+                                             ["r.ext"])),
+            tys.TypeTypeArg(tys.Sum([[tys.Bool], [], [tys.UnitSum(3), tys.Tuple(tys.Unit)]]))]
+    return c05.dump(tys.Opaque("Zoo", A, args, "zoo.ext"))
+
+
 def acceptance(ctx, mode, cases):
     import jsonschema
     from hugr._serialization.extension import Extension, Package
@@ -446,8 +478,9 @@ def acceptance(ctx, mode, cases):
             SerialHugr._pydantic_rebuild(cfg, force=True)
             phase2 = True
         kind, mop, doc, exp = case["kind"], case["mutation"], case["doc"], case["expect"][0 if strict else 1]
-        if mop == "retype-swap" and not strict:
-            continue    # (scalar coercions of the lax decoder: outside the comparison, see the assumptions)
+        # (the scalar swaps made are "a word for a number / boolean" and "a number for a string": neither is among the
+        # lax decoder's coercions -- it parses numeric strings and exchanges numbers and booleans --, so they are
+        # judged under both configurations)
         ctx.count(f"monitor:acceptance-agreement-{mode}")
         ctx.count("expect:" + ("either" if exp is None else "accept" if exp else "reject"))
         if strict:
@@ -677,6 +710,9 @@ def gen_cases(ctx, n):
     for i in ctx.mine(ctx.n(320, 8000)):
         r = ctx.rng("rt", i)
         kind, doc = corpus_doc(r)
+        if i % 4 == 3:
+            kind, doc = corpus_doc(r, want="testing")
+            doc["typ"] = zoo_type()
         for j in range(4):
             m = mutate(r, kind, doc, force="retype", prefer=prefer)
             if m is None:
@@ -719,6 +755,9 @@ def replay(ctx, rec):
             return
         kind, doc = corpus_doc(r)
         if case["rng"][0] == "rt":
+            if case["rng"][1] % 4 == 3:
+                kind, doc = corpus_doc(r, want="testing")
+                doc["typ"] = zoo_type()
             mop, d, es, el = mutate(r, kind, doc, force="retype", at=case["at"])
             acceptance(ctx, case.get("mode", "strict"),
                        [{"kind": kind, "mutation": mop, "doc": d, "expect": [es, el], "rng": case["rng"]}])
